@@ -142,7 +142,7 @@ def run_check(pid, tier, seed, harness_specs, level_note, args):
             groups.setdefault((v['law'], v.get('role', 'general')), []).append(v)
         vsummary = []
         for (law, role), vs in sorted(groups.items()):
-            kf = next((k for k in known if k.get('law') == law and k.get('role') == role and k.get('harness', hz.name) == hz.name), None) if role != 'general' else None
+            kf = next((k for k in known if (k.get('law') == law or law in (k.get('laws') or [])) and k.get('role') == role and k.get('harness', hz.name) == hz.name), None) if role != 'general' else None
             confirmed = None
             rep_paths = []
             for v in vs[:3]:
@@ -177,7 +177,11 @@ def run_check(pid, tier, seed, harness_specs, level_note, args):
                      'translator_validation': {'paths_compared': len(tvs)}})
         samples.extend(S.samples[:4])
     # ---- verdict
+    printed = set()
     for (law, role), kf in sorted(known_hit.items()):
+        if kf['what'] in printed:
+            continue
+        printed.add(kf['what'])
         print('KNOWN-FINDING: property=%s %s [%s / %s]' % (pid, kf['what'], law, role))
     rc = 0
     for law, role, rp, n in new_violations:
